@@ -57,6 +57,7 @@ type c02Faulty struct {
 	log     []c02Read
 	overrun int
 	other   [][]byte
+	blobCT  map[int][][]byte // authentic blob ciphertexts by length (for misdirected reads)
 }
 
 func (f *c02Faulty) Unwrap() backend.Backend { return f.Backend }
@@ -131,6 +132,14 @@ func (f *c02Faulty) Load(ctx context.Context, h backend.Handle, length int, offs
 				}
 			} else {
 				d = append([]byte(nil), o...)
+			}
+		}
+	case "swap": // a misdirected read: the AUTHENTIC ciphertext of another blob of the same length
+		for _, o := range f.blobCT[length] {
+			if !bytes.Equal(o, truth) {
+				d = append([]byte(nil), o...)
+				rec.kind = "swap-hit"
+				break
 			}
 		}
 	case "empty":
@@ -238,11 +247,13 @@ func (h *H) c02NewRepo(version uint) *c02Repo {
 	nb := 3 + h.Intn(5)
 	for i := 0; i < nb; i++ {
 		var d []byte
-		switch h.Intn(4) {
+		switch h.Intn(5) {
 		case 0:
 			d = h.c02Compressible(20 + h.Intn(3000))
 		case 1:
 			d = h.Bytes(1 + h.Intn(40))
+		case 2, 3: // several blobs of equal length, so that a misdirected read can return authentic foreign data
+			d = h.Bytes([]int{64, 300}[h.Intn(2)])
 		default:
 			d = h.Bytes(17 + h.Intn(1500))
 		}
@@ -300,6 +311,13 @@ func (h *H) c02NewRepo(version uint) *c02Repo {
 	for _, n := range r.names {
 		f.other = append(f.other, r.state[n])
 	}
+	f.blobCT = map[int][][]byte{}
+	for _, b := range r.blobs {
+		for _, c := range repository.VerifC02Lookup(repo, restic.BlobHandle{ID: b.id, Type: b.tpe}) {
+			pb := r.state["data/"+c.PackID().String()]
+			f.blobCT[int(c.Blob.Length)] = append(f.blobCT[int(c.Blob.Length)], pb[c.Blob.Offset:c.Blob.Offset+c.Blob.Length])
+		}
+	}
 	return r
 }
 
@@ -314,7 +332,7 @@ func (r *c02Repo) reopen() {
 func (h *H) c02GenKind(ranged bool) c02Kind {
 	kinds := []string{"ok", "ok", "ok", "flip", "trunc", "extend", "other", "empty", "fail", "errafter", "readerr"}
 	if ranged {
-		kinds = []string{"ok", "ok", "ok", "flip", "flip", "trunc", "extend", "other", "zeros", "random", "fail", "readerr"}
+		kinds = []string{"ok", "ok", "ok", "flip", "flip", "trunc", "extend", "other", "swap", "swap", "zeros", "random", "fail", "readerr"}
 	}
 	return c02Kind{kind: h.Pick(kinds), a: h.Intn(1 << 20), b: h.Intn(64), rnd: h.Bytes(1 + h.Intn(24))}
 }
@@ -538,13 +556,14 @@ func (h *H) c02SaveBlobCases(r *c02Repo) {
 		tail  []byte
 	}
 	shapes := []shape{
-		{min, nil},                // the special case
-		{min - 1, nil},            // one short
-		{min + 1, nil},            // one long
-		{min - 1, []byte{1}},      // MinSize bytes, last one non-zero
-		{0, append([]byte{7}, make([]byte, min-1)...)}, // MinSize bytes, first one non-zero
+		{min, nil},           // the special case
+		{min - 1, nil},       // one short
+		{min + 1, nil},       // one long
+		{min, []byte{1}},     // an all-zero prefix of MinSize bytes, but one byte more
+		{min - 1, []byte{1}}, // MinSize bytes, last one non-zero
+		{0, append([]byte{7}, make([]byte, min-1)...)},       // MinSize bytes, first one non-zero
 		{1024, append([]byte{9}, make([]byte, min-1025)...)}, // non-zero right after the first 1 KiB block
-		{min - 1024, h.Bytes(1024)}, // zeros then random last block
+		{min - 1024, h.Bytes(1024)},                          // zeros then random last block
 		{0, nil},
 		{0, h.Bytes(1 + h.Intn(100))},
 		{h.Intn(3000), h.Bytes(h.Intn(50))},
